@@ -283,3 +283,54 @@ V("c07-try-moved-outward-ok", "C07", "silent", None,
        "            if realkey in self.optionbag:\n                return\n"
        "        except ValueError as e:\n"
        "            raise ZConfig.DataConversionError(e, key, position)\n"))
+
+# ---------------------------------------------------------------- C08
+V("c08-unfix-empty-form", "C08", "fire", "C08.R",
+  (CF, "        if isempty:\n            self._end_section(section, type_, name, newsect)",
+       "        if isempty:\n            self.context.endSection(section, type_, name, newsect)"))
+V("c08-unfix-subst-syntax", "C08", "fire", "C08.R",
+  (CF, "        except (ZConfig.SubstitutionReplacementError,\n"
+       "                ZConfig.SubstitutionSyntaxError) as e:",
+       "        except ZConfig.SubstitutionReplacementError as e:"))
+V("c08-reraise-unpatched", "C08", "fire", "C08.R",
+  (CF, "        except ZConfig.ConfigurationError as e:\n"
+       "            if getattr(e, 'lineno', -1) < 0:\n"
+       "                e.lineno = self.lineno\n"
+       "            if not e.url:\n                e.url = self.url\n            raise",
+       "        except ZConfig.ConfigurationError as e:\n"
+       "            if getattr(e, 'lineno', -1) < 0:\n"
+       "                e.lineno = self.lineno\n            raise"))
+V("c08-lineno-before-eof", "C08", "fire", "C08.R2",
+  (CF, "        line = self.file.readline()\n        if line:\n            self.lineno += 1",
+       "        line = self.file.readline()\n        self.lineno += 1\n        if line:"))
+V("c08-error-context-url", "C08", "fire", "C08.R2",
+  (CF, "raise ZConfig.ConfigurationSyntaxError(message, self.url, self.lineno)",
+       "raise ZConfig.ConfigurationSyntaxError(message, self.resource.url, self.lineno - 1)"))
+V("c08-fixup-eq0", "C08", "fire", "C08.R6",
+  (CF, "            if e.lineno < 0:\n                e.lineno = self.lineno\n"
+       "            if not e.url:\n                e.url = self.url\n            raise\n"
+       "        except ZConfig.ConfigurationError as e:\n            self.error(e.message)\n",
+       "            if e.lineno == 0:\n                e.lineno = self.lineno\n"
+       "            if not e.url:\n                e.url = self.url\n            raise\n"
+       "        except ZConfig.ConfigurationError as e:\n            self.error(e.message)\n"))
+V("c08-placeholder-zero", "C08", "fire", "C08.R4",
+  ("src/ZConfig/matcher.py",
+   "                                raise ZConfig.DataConversionError(\n"
+   "                                    e, s, (-1, -1, None))",
+   "                                raise ZConfig.DataConversionError(\n"
+   "                                    e, s, (0, 0, None))"))
+V("c08-dce-wrong-value", "C08", "fire", "C08.R5",
+  ("src/ZConfig/info.py",
+   "raise ZConfig.DataConversionError(e, self.value, self.position)",
+   "raise ZConfig.DataConversionError(e, str(e), self.position)"))
+V("c08-lineno-start-1", "C08", "fire", "C08.R2",
+  (CF, "        self.lineno = 0\n", "        self.lineno = 1\n"))
+V("c08-handlers-helper-ok", "C08", "silent", None,
+  (CF, "        except ZConfig.ConfigurationError as e:\n"
+       "            if getattr(e, 'lineno', -1) < 0:\n"
+       "                e.lineno = self.lineno\n"
+       "            if not e.url:\n                e.url = self.url\n            raise",
+       "        except ZConfig.ConfigurationError as e:\n"
+       "            if not e.url:\n                e.url = self.url\n"
+       "            if getattr(e, 'lineno', -1) < 0:\n"
+       "                e.lineno = self.lineno\n            raise"))
